@@ -46,7 +46,7 @@ theorem C18_counterexample_leftover_directory :
       .putObject bka kT [2] none {} none] := by decide
 
 set_option maxRecDepth 8000 in
-/-- fs:long-key-internal-error (since 4f3e079 put_object refuses the key before anything is written: `KeyTooLongError`, and the
+/-- fs:long-key-internal-error (since c3dcb24 put_object refuses the key before anything is written: `KeyTooLongError`, and the
     object does not exist afterwards; the store accepts a key of 200 bytes) -/
 theorem C18_counterexample_long_key :
     Differs [.createBucket bka, .putObject bka (List.replicate 200 76) [1] none {} none] ∧
@@ -74,7 +74,7 @@ b29f222 complete_multipart_upload into a bucket that no longer exists is `NoSuch
 8faafe7 copy_object gives the destination the metadata and the checksum record of the source, or none;
 c55c267 delete_objects reports every requested key as deleted and accepts a key named twice;
 764f144 list_parts returns the parts in ascending part-number order;
-6bf591c an upload exists only under the bucket and key it was created for: `NoSuchUpload` under any other;
+41e1cf2 an upload exists only under the bucket and key it was created for: `NoSuchUpload` under any other;
 b89afe2 ranged reads: covered for all ranges by `C18_get_refines_partial` and `C18_range_check`, the kernel cannot
 evaluate the decimal formatter of `Content-Range`) -/
 
